@@ -13,7 +13,7 @@ def main() -> int:
     t0 = time.time()
     res = Result("warm", "quick", "model_checking")
     jobs = []
-    jobs.append(lambda: engine.model_check(res, ["q"]))
+    jobs.append(lambda: engine.model_check(res, ["q", "h3"]))
     jobs.append(lambda: engine.non_vacuity(res, ["Laminar", "NoDoubleReport", "Conforms"]))
     from . import props_keyword, props_tree
 
